@@ -10,9 +10,59 @@ replay = G.generic_replay(PID, G.oracle_c16)
 shrink = G.generic_shrink(replay)
 
 
+def _run_multiway(spec):
+    """flat graphs with many-way blocks (out-degree up to 6): iteration and view of the graph as given"""
+    from hypothesis import HealthCheck, Phase, given, seed as hseed, settings
+
+    from vpbt import gen_graphs as gg, models as M
+    from vpbt.core import Collector, h64
+
+    _, seed, shard, examples = spec
+    col = Collector()
+
+    @hseed(h64(("c16mw", seed, shard)))
+    @settings(max_examples=examples, database=None, deadline=None, phases=[Phase.generate], suppress_health_check=list(HealthCheck))
+    @given(g=gg.multiway_graphs())
+    def t(g):
+        scfg = M.mk_scfg(g)
+        try:
+            M.check_iteration(scfg)
+            M.check_view(scfg, "top")
+        except M.Viol as v:
+            col.fail(f"C16:mw:{v.clause}", f"[many-way flat graph] {v.msg}", dict(multiway=[[k, list(v_)] for k, v_ in g.items()]), len(g))
+        deg = max(len(v_) for v_ in g.values())
+        col.case(("mw", tuple(g.items())), len(g), deg >= 4, sample=dict(graph=gg.graph_to_str(g), max_out_degree=deg, origin="multiway"), classes=["origin:multiway", f"outdeg={min(deg, 6)}"])
+
+    t()
+    return col.result()
+
+
 def plan(tier, seed):
-    return sweep.plan(tier, seed, fuzz_mod=__name__)
+    return sweep.plan(tier, seed, fuzz_mod=__name__) + [("multiway", seed, s, 2000 if tier == "quick" else 30000) for s in range(8)]
 
 
 def run(spec):
+    if spec[0] == "multiway":
+        return _run_multiway(spec)
     return sweep.run(spec, _eval)
+
+
+_generic_replay = replay
+
+
+def replay(inp):
+    if "multiway" in inp:
+        from vpbt import models as M
+
+        g = {k: tuple(v) for k, v in inp["multiway"]}
+        scfg = M.mk_scfg(g)
+        try:
+            M.check_iteration(scfg)
+            M.check_view(scfg, "top")
+        except M.Viol as v:
+            return [(f"C16:mw:{v.clause}", v.msg)]
+        return []
+    return _generic_replay(inp)
+
+
+shrink = G.generic_shrink(replay)
